@@ -10,14 +10,15 @@ CHECKS = {
                     "before/after CONNECT, cut bodies, corrupted/huge/5-byte remaining lengths before and after CONNECT, packets larger than the ring or between size-8192 and size, reserved and server-only "
                     "types, malformed request bodies) and end by close, stall+close or silence, while a witness publisher sends numbered messages to a witness subscriber. Afterwards: no panic escaped a "
                     "connection handler, both witness connections still answer PINGREQ, and the witness subscriber holds exactly the witness sequence, in order, byte-identical. Unit trap parks a witness "
-                    "delivery addressed to the attacker at writeMessage.enter until the attacker's teardown has finished (the window named by the property). Fault classes are enumerated by kind; inputs within a class are sampled."),
-        level_note=("Trusted: harness/ref/codec, the witness oracle, the teardown-done hook and the yield hook writeMessage.enter. Pre-CONNECT declared remaining lengths above 1 MiB are not generated "
-                    "in-process (the code allocates the declared size up front); hangs are judged at quiescence only."),
+                    "delivery addressed to the attacker at writeMessage.enter until the attacker's teardown has finished (the window named by the property). Unit child runs the broker in a child process with a 6 GiB address-space limit and no recover around the connection handler (as in production) and sends first packets that declare huge remaining lengths (5-byte encodings up to 32 GiB, the 256 MiB protocol maximum on six connections at once, a length that never terminates): the process must stay alive and the witness pair keep working. Fault classes are enumerated by kind; inputs within a class are sampled."),
+        level_note=("Trusted: harness/ref/codec, the witness oracle, the teardown-done hook and the yield hook writeMessage.enter. Pre-CONNECT declared remaining lengths above 1 MiB are capped "
+                    "in the in-process units (the code allocates the declared size up front; capped streams are counted as class +capped) and exercised in unit child only; hangs are judged at quiescence only."),
         rule=("rapid-generated scenarios; non-trivial = the attacker stream contains a malformed/cut packet (or the forced teardown window) and the witness exchanged >= 10 messages spanning the attack; distinct = FNV-64 of the scenario JSON"),
         assumptions=["ConnectTimeout 1 s", "the broker process dying is observed as a panic escaping the connection handler goroutine (no recover there in production)"],
         units=[
             dict(name="streams", test="TestC05Streams", checks=(300, 20000), shards=(4, 14), timeout=(240, 3000)),
             dict(name="trap", test="TestC05Trap", checks=(200, 4000), shards=(2, 8), timeout=(240, 3000)),
+            dict(name="child", test="TestC05Child", kind="enum", shards=(2, 4), timeout=(240, 600)),
         ]),
 
     "C06": dict(
